@@ -36,6 +36,8 @@ var failClasses = []failClass{
 	{"unexported-field", `{{ item.secret }}`, true, true},
 	{"unexported-field:via-index", `{{ root.Items[0].secret }}`, true, true},
 	{"unexported-field:isset-then-use", `{{ if isset(item.secret) }}{{ end }}{{ item.secret }}`, true, true},
+	{"unexported-field:promoted", `{{ item.hiddenNote }}`, true, true},
+	{"unexported-field:promoted-second-access", `{{ try }}{{ item.hiddenNote }}{{ end }}{{ item.hiddenNote }}`, true, true},
 	{"unknown-block", `{{ yield zzNope() }}`, true, true},
 	{"unknown-template:include", `{{ include "/zz/nope.jet" }}`, true, true},
 	{"unknown-template:exec", `{{ exec("/zz/nope.jet") }}`, true, true},
@@ -112,6 +114,9 @@ var failClasses = []failClass{
 	{"broken-template:exec-again-after-try", `{{ try }}{{ exec("/zbroken.jet") }}{{ end }}{{ exec("/zbroken.jet") }}`, false, true},
 	// the '=' form of range over an index-less ranger with two variables
 	{"range-two-vars-indexless:let", `{{ range zza, zzb := plain }}{{ end }}`, true, true},
+	{"range-two-vars-indexless:empty-with-else", `{{ range zza, zzb := plain0 }}{{ else }}{{ end }}`, true, true},
+	{"invalid-value-piped-into-placeholder:go-func", `{{ item.M.absent | gofn(_, 1) }}`, true, true},
+	{"invalid-value-piped-into-placeholder:go-func-variadic", `{{ item.M.absent | vfn(1, _) }}`, true, true},
 	{"range-two-vars-indexless:assign", `{{ zza, zzb := 1, 2 }}{{ range zza, zzb = plain }}{{ end }}`, true, true},
 	{"underscore-without-piped-value:after-failed-pipe", `{{ try }}{{ s | repeat(zzNope) }}{{ end }}{{ upper(_) }}`, true, true},
 	{"underscore-without-piped-value:after-failed-pipe-builtin", `{{ try }}{{ s | len(1) }}{{ end }}{{ upper(_) }}`, true, true},
